@@ -203,6 +203,14 @@ def eigen_vectors(tier, seed):
         k = rng.randint(1, n)
         w[k] = {1: -4 * td, 2: rng.choice([-td / 4, 0.0, td / 4]), 3: 4 * td}[mode]
       yield 'default tol', w, None
+      # single precision: the documented default uses the epsilon of w's OWN dtype ("eps is the epsilon value for
+      # datatype of w"), so round-off of float32 arithmetic (~1e-7 relative) is within tolerance
+      w32 = (scale32 := 10.0 ** rng.uniform(-3, 3)) * rng.uniform(0.5, 1.0, size=n)
+      td32 = np.abs(w32).max() * n * float(np.finfo(np.float32).eps)
+      if n >= 2 and mode:
+        k = rng.randint(1, n)
+        w32[k] = {1: -4 * td32, 2: rng.choice([-td32 / 4, 0.0, td32 / 4]), 3: 4 * td32}[mode]
+      yield 'default tol float32', w32.astype(np.float32), None
     yield 'negative tol', np.ones(n), -1e-3
     yield 'negative tol', np.ones(n), -1e-300
 
@@ -218,7 +226,7 @@ def check_sdp(ml, kind, w, tol):
     return _v('negative-tol-ValueError', F_SDP, kind, ename(val) if what == 'raise' else 'returned %r' % (val,), inp)
   t = tol
   if t is None:
-    t = max(abs(float(x)) for x in w) * len(w) * EPS
+    t = max(abs(float(x)) for x in w) * len(w) * float(np.finfo(w.dtype).eps)
     # stay away from the boundary of the default tolerance (its last bit is not part of the documented semantics)
     if any(0.9 * t < abs(float(x)) < 1.1 * t for x in w):
       return None
